@@ -58,8 +58,8 @@ IDIOMS = {
         "inputs are rebuilt from new_inputs; the content differs only by the initializers counted in `count`",
     ("RemoveInitializersFromInputsPass.call", r"<Graph>\.inputs\.extend\(\$\d+\)"):
         "second half of the rebuild; see graph.inputs.clear()",
-    ("TopologicalSortPass.call", r"model\.graph\.sort\(\)"): "modified is computed by comparing the node order before and after",
-    ("TopologicalSortPass.call", r"<Function>\.sort\(\)"): "modified is computed by comparing the node order before and after",
+    ("TopologicalSortPass.call", r"model\.graph\.sort\(\)"): "modified is computed by comparing the node order before and after (the snapshots are recursive: rule_sort_snapshots)",
+    ("TopologicalSortPass.call", r"<Function>\.sort\(\)"): "modified is computed by comparing the node order before and after (the snapshots are recursive: rule_sort_snapshots)",
     ("InlinePass.call", r"del model\.functions\[\$\d+\]"):
         "_inlined_functions is filled only on the branch that increments inlined_count, which flows into total_inlined",
     ("InlinePass._inline_calls_in", r"self\._inlined_functions\.add\(\$\d+\)"): "bookkeeping of the pass object (not model state)",
@@ -720,6 +720,39 @@ def _const_ints(e):
     return None
 
 
+def rule_sort_snapshots(ctx):
+    """Backs the IDIOMS entries of TopologicalSortPass: a flag computed by comparing node sequences before and after `<x>.sort()`
+    sees what sort() changes only if the sequences cover every nesting level (sort() reorders subgraphs too)."""
+    f = ctx.repo.func("onnx_ir.passes.common.topological_sort:TopologicalSortPass.call")
+    n = 0
+    for c in calls_in(f):
+        if not (isinstance(c.func, ast.Attribute) and c.func.attr == "sort" and not c.args):
+            continue
+        recv = norm(c.func.value)
+        # node sequences of the same receiver captured in this function: list(E) / <snap>.extend(E)
+        caps = []
+        for x in calls_in(f):
+            if x is c:
+                continue
+            arg = None
+            if dotted_of(x.func) in ("list", "tuple") and x.args:
+                arg = x.args[0]
+            elif isinstance(x.func, ast.Attribute) and x.func.attr == "extend" and x.args:
+                arg = x.args[0]
+            if arg is not None and any(norm(y) == recv for y in ast.walk(arg)):
+                caps.append(arg)
+        for arg in caps:
+            n += 1
+            deep = any(isinstance(y, ast.Call) and ((isinstance(y.func, ast.Attribute) and y.func.attr == "all_nodes")
+                                                     or (dotted_of(y.func) or "").endswith("RecursiveGraphIterator")) for y in ast.walk(arg))
+            ctx.check("R2", f"TopologicalSortPass.call: the order snapshot `{short(norm(arg))}` covers all nesting levels", deep, f, arg,
+                      f"`modified` is computed from `{norm(arg)}`, the top-level nodes only, while `{recv}.sort()` also reorders nested subgraphs: a model whose only "
+                      "unsorted graph is a subgraph is changed and reported as modified=False",
+                      how="arguments of the before/after node snapshots around <x>.sort(): all_nodes() / RecursiveGraphIterator",
+                      construct=f"shallow order snapshot {short(norm(arg))}")
+    ctx.require(n >= 4, f"only {n} before/after order snapshots found in TopologicalSortPass.call")
+
+
 def rule_r8(ctx):
     n = 0
     for m in ctx.repo.modules.values():
@@ -810,3 +843,4 @@ def run(ctx):
     c05.rule_r5(ctx, rule="R6")
     rule_r7(ctx)
     rule_r8(ctx)
+    rule_sort_snapshots(ctx)
